@@ -47,6 +47,54 @@ def _faulted(job):
     return runs.execute(files, _argv(cmd, coe, [x for x, _ in files]), env=env)
 
 
+RICH = (b"# Title\n\n- item one\n  - nested a\n    - deep b   \n  - nested c\n- item two\n\n> quote\n> - list in quote\n>   more\n\n"
+        b"1. one\n   ```text\n   code\n   ```\n2. two\n\n<div>\nhtml\n</div>\n\ntext\twith tab and *emphasis* and [link](/u).   \n")
+RICH2 = b"# Other\n\n* a\n* b\n  * c\n\ntext\twith a tab\n\n> - q\n>   - r\n"
+
+
+def _iso_run(job):
+    cmd, kind, n = job
+    files = [("f1.md", RICH2), ("f2.md", RICH), ("f3.md", RICH2)]
+    env = {"VH_FAULT_LOG": "1"} if kind is None else {"VH_FAULT": "%s:%d" % (kind, n)}
+    return runs.execute(files, ["--add-plugin", appscen.FAULTY, "--continue-on-error", cmd, "f1.md", "f2.md", "f3.md"], env=env)
+
+
+def _per_file(o, name):
+    lines = sorted(l for l in o["out"].splitlines() if l.startswith(name + ":") or l == "Fixed: " + name)
+    return lines, o["contents"].get(name)
+
+
+def _isolation(ctx, tier):
+    n_points = 0
+    for cmd in ("scan", "fix"):
+        base = _iso_run((cmd, None, 0))
+        ticks, cur = [], None
+        for e in base["events"]:
+            if e["ev"] == "file_begin":
+                cur = e["file"]
+            elif e["ev"] == "vh_tick" and cur == "f2.md" and e["kind"] in ("token", "line", "complete"):
+                ticks.append((e["kind"], e["n"]))
+        if not ticks:
+            raise Machinery("isolation: the faulty plugin saw no callback in f2.md")
+        if tier == "quick":
+            ticks = ticks[::3] + ticks[-2:]
+        jobs = [(cmd, k, n) for k, n in sorted(set(ticks))]
+        res = impl.pmap(_iso_run, jobs, procs=16)
+        want = {f: _per_file(base, f) for f in ("f1.md", "f3.md")}
+        for (c_, k, n), o in zip(jobs, res):
+            n_points += 1
+            if "f2.md" not in o["err"] and "f2.md" not in o["out"]:
+                continue                                  # the fault did not fire in f2 (counter differs): no verdict
+            for f in ("f1.md", "f3.md"):
+                got = _per_file(o, f)
+                if got != want[f]:
+                    ctx.violation("continue-isolation:%s:%s-differs-after-fault-in-f2:%s" % (cmd, f, k),
+                                  {"cmd": cmd, "fault": {"callback": k, "invocation": n}, "file": f, "expected_lines": want[f][0][:6],
+                                   "observed_lines": got[0][:6], "content_differs": got[1] != want[f][1], "stderr": o["err"][-400:]})
+    ctx.ev.cov["evaluations"] += n_points
+    ctx.ev.parts["isolation_fault_points_structured_documents"] = n_points
+
+
 def run(pid, tier):
     ctx = Ctx(pid, tier, "fault_enumeration")
     appcommon.model_check(ctx)
@@ -128,6 +176,10 @@ def run(pid, tier):
     if jobs:
         ctx.ev.sample({"fault_point": {"cmd": jobs[0][0], "continue_on_error": jobs[0][1], "documents": list(jobs[0][2]),
                                        "callback": jobs[0][3], "invocation": jobs[0][4]}, "observed_code": res[0]["code"]})
+
+    # ---- part 2b: isolation with structured documents: a fault at callbacks of the middle one of three documents with nested
+    # lists, quotes, fences and HTML (--continue-on-error): what is said about / done to the OTHER files must not change
+    _isolation(ctx, tier)
 
     # ---- part 3: kill the process at every system call on the target during write-back
     from .. import crash
